@@ -339,6 +339,15 @@ func (w *plainWriter) Write(p []byte) (int, error) {
 	return n, w.err
 }
 
+type richSyncer struct {
+	prog
+	others int
+}
+
+func (w *richSyncer) Flush() error { w.others++; return nil }
+func (w *richSyncer) Close() error { w.others++; return nil }
+func (w *richSyncer) Stop() error  { w.others++; return nil }
+
 func wrappers(r *ev.Run) {
 	e1 := errors.New("boom")
 	for i, c := range []struct {
@@ -375,6 +384,16 @@ func wrappers(r *ev.Run) {
 		if err := ws2.Sync(); err != c.err || s.syncs != 1 {
 			r.Violate(ev.Violation{Case: id, Class: "addsync-keeps-sync", Msg: fmt.Sprintf("AddSync did not keep the existing Sync (err=%v syncs=%d)", err, s.syncs)})
 		}
+		// ... also when the value has further methods of the flushing/closing kind: Sync is the one kept,
+		// none of the others is called in its place
+		rich := &richSyncer{prog: prog{n: c.n, err: c.err, syncErr: c.err}}
+		ws4 := zapcore.AddSync(rich)
+		n, err = ws4.Write(p)
+		serr := ws4.Sync()
+		if n != want || err != c.err || serr != c.err || rich.syncs != 1 || rich.others != 0 {
+			r.Violate(ev.Violation{Case: id, Class: "addsync-keeps-sync", Msg: fmt.Sprintf("AddSync over a writer that has Sync and also Flush/Close/Stop: Write (%d,%v) want (%d,%v); Sync returned %v want %v; the writer's own Sync ran %d times (want 1), its other methods %d times (want 0)", n, err, want, c.err, serr, c.err, rich.syncs, rich.others)})
+		}
+		r.Count("addsync_over_sync_plus_flush_close_stop", 1)
 		// Lock relays
 		s3 := &prog{n: c.n, err: c.err, syncErr: c.err}
 		l := zapcore.Lock(s3)
@@ -475,7 +494,6 @@ func Child(r *ev.Run, args []string) {
 		}
 	}
 }
-
 
 // chunkSink accepts at most max bytes per call and reports that count with a nil error (a
 // legal if unusual writer that always makes progress); failAt > 0 makes call number failAt
